@@ -48,9 +48,9 @@ VARIANTS = {
     "noti":    ("gcc",   ["-O2"], ["HAVE_TI_MODE"], []),
     "generic": ("gcc",   ["-O2"], ["NATIVE_LITTLE_ENDIAN", "HAVE_AMD64_ASM", "HAVE_AVX_ASM", "HAVE_TI_MODE",
                                    "HAVE_INLINE_ASM"] + SIMD_HDRS, []),
-    "asan":    ("clang", ["-O1", "-g", "-fsanitize=address,undefined", "-fno-sanitize-recover=undefined",
-                          "-fno-omit-frame-pointer"], [], []),
-    "asan_generic": ("clang", ["-O1", "-g", "-fsanitize=address,undefined", "-fno-sanitize-recover=undefined",
+    "asan":    ("clang", ["-O1", "-g", "-fsanitize=address,undefined", "-fno-sanitize=alignment,nonnull-attribute",
+                          "-fno-sanitize-recover=undefined", "-fno-omit-frame-pointer"], [], []),
+    "asan_generic": ("clang", ["-O1", "-g", "-fsanitize=address,undefined", "-fno-sanitize=alignment,nonnull-attribute", "-fno-sanitize-recover=undefined",
                           "-fno-omit-frame-pointer"],
                      ["NATIVE_LITTLE_ENDIAN", "HAVE_AMD64_ASM", "HAVE_AVX_ASM", "HAVE_TI_MODE",
                       "HAVE_INLINE_ASM"] + SIMD_HDRS, []),
